@@ -58,7 +58,22 @@ def scan_forbidden():
     return hits
 
 
-def proof_step(prop: str):
+def coqchk_step(prop: str, res):
+    """Thorough tier: re-check the property's compiled files and all they depend on with the independent checker."""
+    try:
+        rc, out, err = run(["coqchk", "-o", "-silent", "-Q", ".", "AV", f"AV.Props.P_{prop}"], 3000, cwd=COQ)
+    except subprocess.TimeoutExpired:
+        res["coqchk"] = "timed out"
+        return False
+    tail = out[out.find("CONTEXT SUMMARY"):] if "CONTEXT SUMMARY" in out else (out + err)[-800:]
+    res["coqchk"] = " ".join(tail.split())
+    clean = all(f"* {k}: <none>" in tail for k in (
+        "Axioms", "Constants/Inductives relying on type-in-type",
+        "Constants/Inductives relying on unsafe (co)fixpoints", "Inductives whose positivity is assumed"))
+    return rc == 0 and clean
+
+
+def proof_step(prop: str, tier: str = "quick"):
     """Re-check Props/P_<prop>.v; returns dict(obligations, discharged, assumptions, ok, log)."""
     res = {"obligations": 0, "discharged": 0, "assumptions": [], "ok": False, "log": "", "theorems": []}
     ok, log = build()
@@ -109,6 +124,10 @@ def proof_step(prop: str):
     res["ok"] = (not hits) and not bad and len(answers) >= len(thms) and closed >= len(thms) and len(thms) > 0
     if bad:
         res["log"] += "\nunexpected axioms: " + repr(bad)
+    if res["ok"] and tier == "thorough":
+        if not coqchk_step(prop, res):
+            res["ok"] = False
+            res["log"] += "\ncoqchk: " + str(res.get("coqchk"))
     return res
 
 
@@ -220,6 +239,7 @@ def write_evidence(ctx: Ctx, proof):
         "trusted_base": TRUSTED_BASE,
         "theorems": proof["theorems"],
         "assumptions_printed": proof["assumptions"],
+        "coqchk": proof.get("coqchk", "not run in this tier (thorough runs coqchk -o on the property's files)"),
         "evaluations": ctx.evaluations,
         "distinct_nontrivial": len(ctx.distinct),
         "rule": ctx.rule,
